@@ -13,7 +13,37 @@ def rep(profile, qn, ql, tn, tl, salt=0):
             "quick": {"n": qn, "len": ql}, "thorough": {"n": tn, "len": tl, "timeout": 3000}}
 
 
+CTL = ["modelled: every environment answer (replica replies, start signal, liveness probe, map iteration order where it matters) is part of the request; theorems quantify over all of them",
+       "modelled: quorum (updater) replicas are not modelled (quorumReplicaCount = 0); Start carries one address (what sync.AddReplica sends)",
+       "modelled: goroutine fan-out inside MultiWriterAt / Snapshot / Resize is replaced by its wg.Wait() summary; each request is one step because the code holds Controller.Lock across it",
+       "harness: real controller.Controller driven in-process with scripted types.BackendFactory / Backend / Frontend and HTTP replica endpoints on 127.x.y.z:9502; monitor goroutines are fired by the harness",
+       "not covered: timers (ping ticker, 1 s read-only delay), data races, the vendored iSCSI frontend"]
+
+
+def ctl(profile, qn, ql, tn, tl, salt=0):
+    return {"engine": "ctldiff", "profile": profile, "salt": salt,
+            "quick": {"n": qn, "len": ql}, "thorough": {"n": tn, "len": tl, "timeout": 3000}}
+
+
+CTLMOD = ["JivaVerif.Properties.Controller"]
+
 PROPS = {
+    "C02": {"lean": CTLMOD, "prefixes": ["c02_", "c18_removed_silent", "ctl_reachable_inv", "removeAll_gone"],
+            "runs": [ctl("faults", 640, 30, 12000, 40, 11)], "modelled": CTL},
+    "C03": {"lean": CTLMOD, "prefixes": ["c03_", "ctl_reachable_inv"],
+            "runs": [ctl("membership", 480, 30, 9000, 40, 12)], "modelled": CTL},
+    "C04": {"lean": CTLMOD, "prefixes": ["c04_", "c18_consistent", "ctl_reachable_inv"],
+            "runs": [ctl("reads", 480, 30, 9000, 40, 13)], "modelled": CTL},
+    "C05": {"lean": CTLMOD, "prefixes": ["c05_", "c02_failed_detached", "c18_removed_silent", "ctl_reachable_inv"],
+            "runs": [ctl("faults", 640, 30, 12000, 40, 14)], "modelled": CTL + [
+                "partial: that the detector fires (ping ticker, RPC deadline, TCP close) is runtime behaviour; the model takes 'the monitor fires' / 'the call returns an error' as events"]},
+    "C09": {"lean": CTLMOD, "prefixes": ["c09_", "maxRevCount_", "ctl_reachable_inv"],
+            "runs": [ctl("election", 480, 30, 9000, 40, 15)], "modelled": CTL + [
+                "partial: the replica-side registration loop (sync.AddReplica, 5 s ticker) is modelled as 'registration may repeat'"]},
+    "C13": {"lean": CTLMOD, "prefixes": ["c13_", "ctl_reachable_inv"],
+            "runs": [ctl("snapshots", 480, 30, 9000, 40, 16)], "modelled": CTL},
+    "C18": {"lean": CTLMOD, "prefixes": ["c18_", "c07_single_wo", "ctl_reachable_inv"],
+            "runs": [ctl("membership", 480, 30, 9000, 40, 17)], "modelled": CTL},
     "C01": {"lean": ["JivaVerif.Properties.C01"],
             "runs": [rep("io", 160, 30, 4000, 45), rep("mix", 96, 30, 3000, 45, 1)], "modelled": FS},
     "C06": {"lean": ["JivaVerif.Properties.C06"],
